@@ -18,8 +18,11 @@ package ro
 
 //@ pure recoverValueToError
 //@ pure newObserverError
+//@   nonnil
 //@ pure newObservableError
+//@   nonnil
 //@ pure newUnsubscriptionError
+//@   nonnil
 
 //@ func (*observerImpl).NextWithContext
 //@   props C01 C07
@@ -133,3 +136,74 @@ package ro
 //@ func (*subscriberImpl).IsCompleted
 //@   props C06
 //@   ensures [reads-status] result == (loaded(status) == 2)
+
+// ---------------------------------------------------------------------------
+// subscription.go
+// ---------------------------------------------------------------------------
+
+//@ type subscriptionImpl
+//@   lock mu protects done finalizers
+//@   lockinv mu : done ==> len(finalizers) == 0
+//@   lockguar mu : atlock(done) ==> done
+
+//@ func NewSubscription
+//@   props C03
+//@   ensures [starts-open|C03] result.done == false
+//@   ensures [holds-initial-teardown|C03] len(result.finalizers) == ite(teardown == nil, 0, 1)
+//@   ensures [initial-teardown-first|C03] teardown != nil ==> result.finalizers[0] == teardown
+
+//@ func (*subscriptionImpl).Add
+//@   props C03 C06 C14
+//@   panicforks
+//@   maypanic
+//@   track callfn.*
+//@   ensures [nil-is-noop|C03] teardown == nil ==> trace() && count(lock.mu) == 0
+//@   ensures [late-add-runs-now-once|C03,C14] teardown != nil && atlock(done) ==> trace(callfn.teardown()) && len(atunlock(finalizers)) == len(atlock(finalizers))
+//@   ensures [open-add-appends|C03] teardown != nil && !atlock(done) ==> trace() && len(atunlock(finalizers)) == len(atlock(finalizers)) + 1 && atunlock(finalizers)[len(atlock(finalizers))] == teardown
+//@   ensures [only-own-panic] panics ==> panicked(teardown)
+
+//@ func (*subscriptionImpl).AddUnsubscribable
+//@   props C03 C14
+//@   maypanic
+//@   track call.* callfn.*
+//@   ensures [nil-is-noop|C03] unsubscribable == nil ==> trace()
+//@   ensures [delegates-to-add|C03,C14] unsubscribable != nil ==> trace(call.subscriptionImpl.Add(s, _))
+
+//@ func (*subscriptionImpl).Unsubscribe
+//@   props C03 C06 C14
+//@   maypanic
+//@   track call.execFinalizer loop.* callfn.*
+//@   ensures [closes|C03,C06] atunlock(done) == true
+//@   ensures [second-call-is-noop|C03] atlock(done) ==> trace()
+//@   ensures [batch-taken-once|C03] !atlock(done) ==> len(atunlock(finalizers)) == 0
+//@   ensures [runs-whole-batch|C03,C14] !atlock(done) && len(atlock(finalizers)) > 0 ==> trace(loop.L0)
+//@   ensures [finalizers-run-unlocked|C03,C06] notheldat(mu, call.execFinalizer) && notheldat(mu, loop.L0)
+//@   ensures [panic-only-after-all-ran|C03] panics ==> called(loop.L0)
+
+//@ loop (*subscriptionImpl).Unsubscribe#0
+//@   invariant 0 <= it && it <= len(ranged)
+//@   invariant ranged == atlock(finalizers)
+//@   iteration emits call.execFinalizer(ranged[it])
+
+//@ func execFinalizer
+//@   props C03 C07
+//@   panicforks
+//@   track callfn.*
+//@   ensures [runs-once|C03] trace(callfn.finalizer())
+//@   ensures [error-iff-panic|C03,C07] iff(panicked(finalizer), result != nil)
+//@   ensures [wraps-cause|C07] panicked(finalizer) ==> result == newUnsubscriptionError(recoverValueToError(panicval(finalizer)))
+
+//@ func (*subscriptionImpl).IsClosed
+//@   props C06
+//@   ensures [reads-done-under-lock|C06] result == atlock(done)
+
+//@ func (*subscriptionImpl).Wait
+//@   props C06
+//@   maypanic
+//@   track chmake chrecv.* chclose.* chsend.* call.*
+//@   ensures [waits-for-own-finalizer|C06] trace(chmake(1), call.subscriptionImpl.Add(s, _), chrecv.ch, chclose.ch)
+
+//@ func (*subscriptionImpl).Wait$1
+//@   props C06
+//@   track chmake chrecv.* chclose.* chsend.*
+//@   ensures [signals-once|C06] trace(chsend.ch)
